@@ -1,0 +1,40 @@
+//go:build verif
+
+package kgo
+
+// Verification contracts (comments only), read by /verif/govc. Compiled only with -tags verif; no code.
+
+// ---- C18: the size accounting of produce batches agrees with what is serialized ----
+// vl(n): the number of bytes of the zig-zag varint of int32(n) (kbin's VarintLen; kbin's contracts prove it).
+//@ spec vl(n int) int = uvlen32(zz32(int32(n)))
+// hdrsLen(hs, k): bytes of the first k record headers on the wire.
+//@ spec rec hdrsLen(hs []RecordHeader, k int) int = ite(k <= 0, 0, hdrsLen(hs, k-1) + vl(len(hs[k-1].Key)) + len(hs[k-1].Key) + vl(len(hs[k-1].Value)) + len(hs[k-1].Value))
+// recBody(r, tsDelta, offsetDelta): bytes of a record after its length prefix.
+//@ spec recBody(r *Record, tsDelta int64, offsetDelta int32) int = 1 + uvlen64(zz64(tsDelta)) + uvlen32(zz32(offsetDelta)) +
+//@   vl(len(r.Key)) + len(r.Key) + vl(len(r.Value)) + len(r.Value) + vl(len(r.Headers)) + hdrsLen(r.Headers, len(r.Headers))
+
+// calculateRecordNumbers: the length field computed while batching is recBody for the timestamp delta it returns
+// and the offset delta "current number of records".
+//@ func (b *recBatch) calculateRecordNumbers(r *Record) (n recordNumbers)
+//@   prop C18
+//@   nopanic
+//@   requires len(r.Headers) < 1073741824
+//@   requires [headers-below-a-terabyte] forall k in 0..len(r.Headers)+1 :: 0 <= hdrsLen(r.Headers, k) && hdrsLen(r.Headers, k) < 1099511627776
+//@   ensures [length-field-is-the-body-length] n.lengthField == int32(atentry(recBody(r, n.tsDelta, int32(len(b.records)))))
+//@   ensures [first-record-has-delta-zero] len(b.records) == 0 ==> n.tsDelta == 0
+//@   loop 0 unfold atentry(hdrsLen(r.Headers, rangeindex+2))
+//@   unfold hdrsLen(r.Headers, 0)
+//@   loop 0 invariant l == 1 + uvlen64(zz64(tsDelta)) + uvlen32(zz32(offsetDelta)) + vl(len(r.Key)) + len(r.Key) + vl(len(r.Value)) + len(r.Value) + vl(len(r.Headers)) + atentry(hdrsLen(r.Headers, rangeindex+1))
+
+// promisedRec.appendTo: serializing a record appends its varint length field and then exactly recBody bytes for
+// the stored timestamp delta and the given offset delta.
+//@ func (pr promisedRec) appendTo(dst []byte, offsetDelta int32) (out []byte)
+//@   prop C18
+//@   nopanic
+//@   requires len(pr.Record.Headers) < 1073741824
+//@   requires [headers-below-a-terabyte] forall k in 0..len(pr.Record.Headers)+1 :: 0 <= hdrsLen(pr.Record.Headers, k) && hdrsLen(pr.Record.Headers, k) < 1099511627776
+//@   requires disjoint(pr.Record.Key, dst) && disjoint(pr.Record.Value, dst)
+//@   ensures [appends-length-field-and-body] len(out) == len(dst) + uvlen32(zz32(old(pr.Record.LeaderEpoch))) + atentry(recBody(pr.Record, pr.Record.Offset, offsetDelta))
+//@   unfold hdrsLen(pr.Record.Headers, 0)
+//@   loop 0 unfold atentry(hdrsLen(pr.Record.Headers, rangeindex+2))
+//@   loop 0 invariant len(dst) == atentry(len(dst)) + uvlen32(zz32(pr.Record.LeaderEpoch)) + 1 + uvlen64(zz64(pr.Record.Offset)) + uvlen32(zz32(offsetDelta)) + vl(len(pr.Record.Key)) + len(pr.Record.Key) + vl(len(pr.Record.Value)) + len(pr.Record.Value) + vl(len(pr.Record.Headers)) + atentry(hdrsLen(pr.Record.Headers, rangeindex+1))
